@@ -156,3 +156,21 @@ CHECKS["C18"] = dict(
     floors=dict(any={"TestC18Concurrent.opens": 3000, "TestC18Lifetimes.lifetimes": 30, "TestC18Duplicate.duplicates": 60, "TestC18Duplicate.concurrent_duplicates": 10}),
     assumptions=["the wall clock does not go backwards between manager lifetimes (premise stated in the property)"],
 )
+
+CHECKS["C04"] = dict(
+    level="exploration",
+    rule=("C04New: case index enumerates direction x arrival path (network receiver / transport callback) x request shape (registered type x2, unregistered type, missing voucher, "
+          "missing selector) x validator outcome (accept, reject, error, accepted-with-error) and draws VoucherResult (nil, value, typed-but-nil), ForcePause, DataLimit "
+          "(0, 1, 4096, 2^62, 2^64-1), RequiresFinalization. Oracle = join of validator call log, datastore write log, transport and network call logs and the manager's view: "
+          "no channel/transport/protect/accepted reply unless the validator returned Accepted without error; accepted reply carries exactly the validator's result and pause decision; "
+          "limits recorded. C04Restart: existing responder channel x {incoming restart request, UpdateValidationStatus, restart after a process restart with the voucher type not "
+          "registered again} x outcome: refused re-validation => not-accepted reply, transport closed (or error returned to the transport), rejection fails the channel with the "
+          "rejection message; accepted => reply/limits/pause as decided. Panics are violations. distinct = observed parameter/outcome tuple."),
+    parts=[
+        dict(test="TestC04New", quick=480, thorough=24000, per_shard=60),
+        dict(test="TestC04Restart", quick=384, thorough=16000, per_shard=48),
+    ],
+    floors=dict(any={"TestC04New.accepted": 60, "TestC04New.refused": 200, "TestC04Restart.revalidation_accepted": 40, "TestC04Restart.revalidation_refused": 40,
+                     "TestC04Restart.restart_unregistered": 40}),
+    assumptions=["a validator error on restart is only required to give a not-accepted reply and a closed transport (weaker reading, DESIGN C04)"],
+)
